@@ -22,6 +22,12 @@ ENGINES = {
     },
 }
 
+ENGINES["vecsim"] = {
+    "sources": LIB + [("nosan", "sim/sched.cpp"), ("nosan", "sim/simalloc.cpp"),
+                      ("harness", "engines/vecsim/vecsim.cpp"), ("harness", "engines/vecsim/vs_ops1.cpp"), ("harness", "engines/vecsim/vs_ops2.cpp")]
+               + [("harness", "engines/vecsim/stmt.cpp", ["-DSTMT_KIND=%d" % k]) for k in range(12)],
+}
+
 REAL_STUB_COMMON = {
     "real": ["every line of /repo/include and /repo/src that the engine links (compiled from the working tree)"],
     "simulated": [],
@@ -52,3 +58,49 @@ PROPS = {
         },
     },
 }
+
+
+VEC_REAL_STUB = {
+    "real": ["src/SUNalg.cpp, src/MatrixExp.cpp, src/const.cpp, src/SQuIDS.cpp and every header under include/SQuIDS, compiled from the working tree",
+             "GSL 2.7.1 (static), libstdc++, std::thread, thread-local storage, AddressSanitizer/UBSan runtime in the asan builds"],
+    "simulated": ["operator new/new[]/delete/delete[] (S1 simulated heap: address residue mod 32, reuse policy, fill pattern, std::bad_alloc injection, ledger)",
+                  "user buffers (guarded blocks of the simulated heap)", "the program itself: a seeded plan of public operations (workload)"],
+}
+VEC_ASSUME = ["plans stay inside the documented preconditions listed in DESIGN.md section 4.1 except for the argument errors that must be rejected",
+              "GSL's own malloc is not failed or tracked in this engine", "single simulated thread per run (fresh thread, hence fresh thread-local cache, per execution)",
+              "values of non-element-wise operations are taken from the library's own unfused evaluation on copies (an error in a generated kernel is a C02/C03 matter, not judged here)"]
+
+def vec_rule(extra):
+    return ("plans are generated from (VERIF_SEED, run index): 1-40 operations (70% <=12) over a pool of 8 SU_vector slots and 4 user buffers in the simulated heap; "
+            "constructors/factories (valid and invalid arguments), copy/move construction and assignment, self assignment, SetBackingStore, element writes, compound "
+            "assignment, the statement forms t (=|+=|-=) expr and SU_vector t(expr) over 12 expression kinds with lvalue / std::move / temporary operands, alias patterns and "
+            "true guarantee flags, queries, clear_mem_cache and bursts of >=33 vectors; allocator knobs (address reuse none/LIFO/FIFO/random, residue 0/16 mod 32, fill "
+            "pattern) are drawn per run. " + extra + " distinct = hash of (operation kinds in order, storage kinds and dimensions of operands, value categories, alias "
+            "pattern, guarantee flags); non-trivial = the run contains a resize, a storage theft, a cache-full release, an exception or a fired fault")
+
+def vec_prop(extra, quick, thorough, level="exploration"):
+    return {"level": level, "rule": vec_rule(extra), "distinct_measure": "hash of the abstract operation sequence (kinds, storage kinds, dimensions, categories, alias pattern, flags)",
+            "real_vs_stub": VEC_REAL_STUB, "assumptions": VEC_ASSUME, "batches": {"quick": quick, "thorough": thorough}}
+
+PROPS["C08"] = vec_prop("Profile biased to copies, moves, consuming expressions and follow-ups on moved-from vectors.",
+    [{"engine": "vecsim", "config": "asan", "runs": 60000, "deadline": 70}, {"engine": "vecsim", "config": "plain", "runs": 200000, "base": 60000, "deadline": 40}],
+    [{"engine": "vecsim", "config": "asan", "runs": 1500000, "deadline": 900}, {"engine": "vecsim", "config": "plain", "runs": 8000000, "base": 1500000, "deadline": 600}])
+PROPS["C09"] = vec_prop("The first 22680 run indices enumerate {=,+=,-=,construct} x 21 expression forms x 6 target kinds x 5 alias patterns x 9 operand category pairs "
+                        "(dimension and flag set rotate with the index); later indices embed statements in random histories.",
+    [{"engine": "vecsim", "config": "asan", "runs": 50000, "deadline": 70}, {"engine": "vecsim", "config": "asan-avx", "runs": 30000, "deadline": 50}],
+    [{"engine": "vecsim", "config": "asan", "runs": 1500000, "deadline": 900}, {"engine": "vecsim", "config": "asan-avx", "runs": 1000000, "deadline": 600},
+     {"engine": "vecsim", "config": "plain", "runs": 4000000, "base": 1500000, "deadline": 400}])
+PROPS["C14"] = vec_prop("The first run indices enumerate the bounded table of argument faults (20 ordered dimension pairs x 11 binary entry points x 2 storage kinds, and the "
+                        "constructor/factory window); later indices place argument faults inside random histories (40% of operations).",
+    [{"engine": "vecsim", "config": "asan", "runs": 30000, "deadline": 80}],
+    [{"engine": "vecsim", "config": "asan", "runs": 1500000, "deadline": 1200}, {"engine": "vecsim", "config": "asan-avx", "runs": 300000, "deadline": 400}],
+    level="fault_enumeration")
+PROPS["C15"] = vec_prop("Profile mixes everything, including throwing operations, queries through the GSL-backed matrix functions, bursts and cache clearing; verdict = "
+                        "ledger at quiescence + sanitizer.",
+    [{"engine": "vecsim", "config": "asan", "runs": 50000, "deadline": 70}, {"engine": "vecsim", "config": "asan-avx", "runs": 30000, "deadline": 40}],
+    [{"engine": "vecsim", "config": "asan", "runs": 2000000, "deadline": 1000}, {"engine": "vecsim", "config": "asan-avx", "runs": 1000000, "deadline": 600}])
+PROPS["C16"] = vec_prop("Every history (2-12 operations) is first run fault free to count the allocations of each operation; then it is re-run once for every (operation, k) "
+                        "with exactly that allocation throwing std::bad_alloc (evaluations counts these executions).",
+    [{"engine": "vecsim", "config": "asan", "runs": 4000, "deadline": 90}],
+    [{"engine": "vecsim", "config": "asan", "runs": 200000, "deadline": 1500}],
+    level="fault_enumeration")
